@@ -359,8 +359,8 @@ fn scenario(cfg: &Cfg, track: bool) -> Out {
             yielded += n;
         }
     }
-    if w.any_actor_panicked().is_some() {
-        bad.push(("actor-died".into(), "actor thread panicked".into()));
+    if let Some(dead) = w.any_actor_panicked() {
+        bad.push(("actor-died".into(), format!("actor thread panicked: node {dead} {}", w.death_reason(dead))));
     }
     // positive control: an authentic answer was offered and something was yielded
     let authentic = match cfg.api {
